@@ -71,7 +71,7 @@ class Syntactic(object):
 
 class Property(object):
   def __init__(self, pid, units, bounded=(), syntactic=(), trusted_base=(), assumptions=(),
-               findings_witness=None):
+               findings_witness=None, label_prefixes=None):
     self.pid = pid
     self.units = list(units)
     self.bounded = list(bounded)
@@ -79,6 +79,7 @@ class Property(object):
     self.trusted_base = list(trusted_base)
     self.assumptions = list(assumptions)
     self.findings_witness = findings_witness or {}   # finding id -> fn() -> (still_fails, detail)
+    self.label_prefixes = label_prefixes or [pid + '/']   # shared units: keep only these labels
 
 
 def load_known_findings():
@@ -136,6 +137,7 @@ def run_property(prop, tier='quick', seed=0, only_unit=None, verbose=False):
     except RecursionError as e:
       status['crash'].append("%s: recursion: %s" % (u.name, e))
       continue
+    obs = [ob for ob in obs if any(ob.label.startswith(p) for p in prop.label_prefixes)]
     for ob in obs:
       unit_of[id(ob)] = u
     if not obs:
